@@ -101,11 +101,16 @@ def mkq(e, ch, cap, n, m, ub, extra=None, budget=240, p=None):
                 budget=budget, ub=ub, nofunc=ub, solver=os.environ.get('C04_SOLVER', 'minisat'))
 
 
+NEEDLE_SRCH = set(x + k for x in SRCH for k in ('_s', '_cs', '_pc', '_s0', '_cs0')) | {'ffo_v', 'ffo_v0', 'ct_v', 'ct_cs'}
 HEAVY_RFIND = ['rfind_s', 'rfind_cs', 'rfind_s0', 'rfind_cs0']   # find_end with a symbolic needle: cost grows steeply with the haystack
 
 
 def applicable(e, ch, cap, n, m, tier='quick'):
-    if e in HEAVY_RFIND and n > (4 if tier == 'quick' else 7):
+    if e in HEAVY_RFIND and n > 4:
+        return False     # rfind with a symbolic needle (find_end): no verdict within 600 s from 7 characters on (measured)
+    if e in NEEDLE_SRCH and n > 5 and m > 1:
+        return False     # two-character needle on a haystack of 7+: find_last_of(str/cstr) got no verdict within 600 s (measured)
+    if e == 'erase_it' and False:
         return False
     if e == 'insert_nc' and n < cap - ((2 if ch == 'char' else 1) if tier == 'quick' else 3):
         return False     # tetl's insert(index, count, ch) rotates once per character: count <= capacity - N is kept small
@@ -147,10 +152,10 @@ def plan(profile, cap):
             ns, prs, sr, src = [mid], [(mid, 1), (mid, cap - mid), (mid, cap - mid + 1)], [(mid, 2)], [cap]
         elif profile == 'full':
             ns, prs, sr, src = [0, mid, cap], [(0, cap), (mid, 1), (mid, cap - mid), (mid, cap - mid + 1), (cap, 1)], [(0, 1), (mid, 1), (mid, 2), (cap, 1)], [0, 1, cap]
-        elif profile == 'all':      # every pre-size; exact fit and first overflow from each, short operands from three of them; searches with needles 1..3
+        elif profile == 'all':      # every pre-size; exact fit from each, first overflow and short operands from three of them; needles 1..3
             ns = list(range(cap + 1))
-            prs = sorted({(n, m) for n in ns for m in clamp(cap, [cap - n, cap - n + 1])} | {(n, m) for n in (0, mid, cap - 1) for m in (0, 1)})
-            sr = [(n, m) for n in clamp(cap, [0, 1, 2, 3, 5, cap]) for m in clamp(cap, [1, 2])] + [(0, 0), (cap, 0), (mid, 3), (2, 3)]
+            prs = sorted({(n, cap - n) for n in ns} | {(n, m) for n in (mid, cap - 1, cap) for m in clamp(cap, [1, cap - n + 1])} | {(0, 1)})
+            sr = [(n, m) for n in clamp(cap, [0, 1, 2, 5]) for m in clamp(cap, [1, 2])] + [(0, 0), (cap, 1), (mid, 3)]
             src = list(range(cap + 1))
         else:
             raise ValueError(profile)
@@ -173,8 +178,9 @@ def plan(profile, cap):
 
 
 QUICK = [('char', 1, 'full'), ('char', 7, 'full'), ('char', 15, 'edge'), ('char', 16, 'full'), ('char16_t', 7, 'light'), ('char16_t', 16, 'light')]
-THOROUGH = ([('char', 0, 'all'), ('char', 1, 'all'), ('char', 7, 'all'), ('char', 15, 'wide'), ('char', 16, 'wide'), ('char', 31, 'light'), ('char', 255, 'huge'), ('char', 256, 'huge')]
-            + [(ch, cap, pr) for ch in ('wchar_t', 'char16_t') for cap, pr in ((0, 'all'), (1, 'full'), (7, 'light'), (15, 'light'), (16, 'light'), (31, 'light'))]
+THOROUGH = ([('char', 0, 'all'), ('char', 1, 'all'), ('char', 7, 'all'), ('char', 15, 'edge'), ('char', 16, 'full'), ('char', 31, 'light'), ('char', 255, 'huge'), ('char', 256, 'huge')]
+            + [('wchar_t', cap, pr) for cap, pr in ((0, 'all'), (1, 'full'), (7, 'light'), (16, 'light'), (31, 'light'))]
+            + [('char16_t', cap, pr) for cap, pr in ((0, 'all'), (1, 'full'), (7, 'light'), (15, 'light'), (16, 'light'))]
             + [(ch, cap, pr) for ch in ('char8_t', 'char32_t') for cap, pr in ((0, 'all'), (1, 'full'), (7, 'light'), (16, 'light'))])
 QUICK_C02 = [('char', 7, 'light'), ('char', 16, 'light')]
 ERASERS = ('erase_pc', 'erase_p', 'erase_0', 'erase_it', 'erase_itit', 'erase_val', 'erase_if')
@@ -204,6 +210,8 @@ def queries(tier, prop='C04'):
             return    # remove + rotate with a symbolic split point: 40-80 s from 7 characters on
         if chk and e in ('append_it', 'append_s', 'pluseq_s', 'append_self') and n + (n if e == 'append_self' else m) > cap:
             return    # these append with push_back, whose documented precondition is size() < capacity()
+        if e == 'erase_it' and p is not None and p >= n:
+            return
         key = (e, ch, cap, n, m, p, chk)
         if key in seen:
             return
@@ -213,7 +221,7 @@ def queries(tier, prop='C04'):
             extra['P_'] = p
         if chk:
             extra['CHK'] = 1
-        q = mkq(e, ch, cap, n, m, ub, extra=extra, p=p if e in USES_P else None, budget=budget or (240 if tier == 'quick' else 600))
+        q = mkq(e, ch, cap, n, m, ub, extra=extra, p=p if e in USES_P else None, budget=budget or (240 if tier == 'quick' else 400))
         # configurations that lie wholly inside an open known-finding region (HARNESS.md): only a confirm query may use them
         inside = False
         if 'C04_swap_full_tiny' in opn and e in ('swap', 'swap_free') and cap < 16 and (n == cap or m == cap) and n != m:
@@ -284,12 +292,12 @@ def queries(tier, prop='C04'):
                 add(e, ch, cap, 0, 0, chk=True)
             for e in SRC:
                 add(e, ch, cap, 0, 1, chk=True)
-            for n, p in ([(0, None), (mid, None), (cap, None if small else cap - 1)] + ([] if tier == 'quick' else [(1, None), (cap - 1, None if small else cap - 2)])):
+            for n, p in [(0, None), (mid, None), (cap, None if small else cap - 1)]:
                 for e in ONE_ROT + ['clear', 'pop_back', 'push_back', 'resize_nc', 'append_nc', 'access', 'set_at']:
                     add(e, ch, cap, n, 0, p, chk=True)
             for e in ONE_MUT:
                 add(e, ch, cap, mid, 0, chk=True)
-            for n, m in ([(mid, 1), (mid, 2)] if tier == 'quick' else [(mid, 1), (mid, 2), (1, 1), (2, 2)]):
+            for n, m in [(mid, 1), (mid, 2)]:
                 for e in TWO_MUT + TWO_ROT:
                     add(e, ch, cap, n, m, chk=True)
             for e in TWO_MUT_LIGHT:
